@@ -18,7 +18,7 @@ RULE = ("full product personality x request route path x service on a freshly co
         "null/0/false over port and link alphabets. non-trivial = distinct (personality, route path, service) with a route path "
         "present, and distinct route-path texts with >= 1 segment")
 BOUNDS = {
-    "quick": "10 personalities x 13 request route paths x 5 services; texts over ports {1,2,14,15,16,255,65535} x links "
+    "quick": "10 personalities x 18 request route paths x 5 services; texts over ports {1,2,14,15,16,255,65535} x links "
              "{0,1,255,'1.2.3.4','10.0.0.10'} in 4 notations, chains of 1..2 segments",
     "thorough": "same product (it is already complete for the alphabet) + chains of 3 segments and connection paths with a trailing CIP path",
 }
@@ -34,6 +34,8 @@ PERSONALITIES = [
 REQUEST_PATHS = [
     None, [], [PL(1, 0)], [PL(1, 1)], [PL(2, 0)], [PL(2, "1.2.3.4")], [PL(2, "1.2.3.5")], [PL(15, 0)], [PL(16, 3)],
     [PL(1, 0), PL(2, "1.2.3.4")], [PL(1, 0), PL(1, 0)], [PL(16, 3), PL(1, 0)], [PL(16, 3), PL(1, 0), PL(1, 0)],
+    # link given as a link-ADDRESS string whose text is the digits of a configured numeric link: a different kind of link
+    [PL(1, "0")], [PL(1, "1")], [PL(16, "3")], [PL(16, "3"), PL(1, 0)], [PL(1, 0), PL(2, "7")],
 ]
 SERVICES = ["read", "write", "gas", "bundle", "fwdopen"]
 CFG = (("a", "INT", 2, None), ("b", "INT", 1, "0x401/1/1"))
